@@ -224,7 +224,7 @@ func RunWorker(a WorkerArgs) int {
 				b, _ := json.MarshalIndent(rf, "", " ")
 				os.WriteFile(rec.Replay, b, 0o644)
 			}
-			if len(agg.Violations) < 500 {
+			if len(agg.Violations) < 20000 {
 				agg.Violations = append(agg.Violations, rec)
 			}
 		}
